@@ -430,6 +430,10 @@ def reader_stream(ctx, bd, problems):
             continue
         ok += 1
     kinds = {"t": "a well-formed file followed by a character that starts nothing (C10_rejects_trailing_text)",
+             "q": "a well-formed file followed by a literal that is opened and never closed (C10_rejects_unclosed_literal)",
+             "b": "a well-formed file followed by a group, capture, action or class that is opened and never closed (C10_rejects_unclosed_bracket)",
+             "d": "a well-formed file followed by & or ! with only blanks and comments behind it (C10_rejects_dangling_prefix)",
+             "s": "a text that stops inside the parser's state, Peg { opened and never closed (C10_rejects_unclosed_state)",
              "r": "the head of a file with no rule behind it (C10_rejects_text_without_rules)",
              "p": "comments and blank lines followed by something that is not the package clause (C10_rejects_text_without_package)"}
     rejected = collections.Counter()
